@@ -75,21 +75,31 @@ Print Assumptions C12_label_unique_monotone.
 (* label_fresh, one process lifetime: once every goroutine fired by an acknowledged ingest has run
    (in whatever interleaving of their two critical sections with everything else), an allocation
    returns labels above every label present in the volume at any version. *)
-Theorem C12_label_fresh : forall evs v n, forallb live_event evs = true -> n <> 0 ->
+Theorem C12_label_fresh : forall evs v n, forallb live_event evs = true ->
   let s := fst (lrun l_fresh evs) in
   l_pending s = [] ->
-  exists b e, snd (lstep s (LAlloc v n)) = Some (b, e) /\ forall l, In l (l_present s) -> l < b.
+  forall b e, snd (lstep s (LAlloc v n)) = Some (b, e) ->
+  b <= e /\ e <= max_label /\ forall l, In l (l_present s) -> l < b.
 Proof. exact label_fresh_live. Qed.
 Print Assumptions C12_label_fresh.
 
 (* With the ingest paths updating the maximum BEFORE they acknowledge (repo_patches/C12-1-fix.diff),
    for every history of acknowledged requests (allocations, ingests, max-label posts) the next
    allocation is above every label present — no proviso. *)
-Theorem C12_label_fresh_acked : forall qs v n, n <> 0 ->
+Theorem C12_label_fresh_acked : forall qs v n,
   let s := fst (lrun l_fresh (expand_reqs qs)) in
-  exists b e, snd (lstep s (LAlloc v n)) = Some (b, e) /\ forall l, In l (l_present s) -> l < b.
+  forall b e, snd (lstep s (LAlloc v n)) = Some (b, e) ->
+  b <= e /\ e <= max_label /\ forall l, In l (l_present s) -> l < b.
 Proof. exact label_fresh_acked. Qed.
 Print Assumptions C12_label_fresh_acked.
+
+(* Labels are uint64.  An allocation on the max-label path is served exactly when the request is
+   non-empty and fits below 2^64; otherwise it is refused and nothing changes — it never wraps
+   (the served range satisfies b <= e <= 2^64-1 by the two theorems above). *)
+Theorem C12_alloc_served_iff_fits : forall s v n, l_up s = true -> l_next s = 0 ->
+  (exists r, snd (lstep s (LAlloc v n)) = Some r) <-> n <> 0 /\ n <= max_label - l_maxrepo s.
+Proof. exact alloc_succeeds. Qed.
+Print Assumptions C12_alloc_served_iff_fits.
 
 (* label_fresh_refuted, the code as it stood: storeBlocks fired `go d.updateBlockMaxLabel` and
    returned, so an allocation could fall between the acknowledgement and the update. *)
